@@ -200,8 +200,14 @@ class Statement(object):
         positive_range = True
 
         rel_index = self.code_pkg.additional.int
+        offset = 0
         if self.operand.left.is_address_expression():
             rel_index = self.operand.left.extract_address_index_from_expression()
+            offset = self.operand.left.constant_offset()
+            if offset is None:
+                # the span to the label says nothing about the value: use the form that always fits
+                force_16_bit = True
+                offset = 0
 
         range_count = range(this_index, rel_index)
         if rel_index < this_index:
@@ -217,14 +223,14 @@ class Statement(object):
         min_size += 2
 
         if positive_range:
-            if min_size <= 127 and max_size <= 127:
+            if min_size <= 127 and max_size <= 127 and not force_16_bit and -128 <= offset and max_size + offset <= 127:
                 self.code_pkg.size += 1
                 self.code_pkg.max_size = self.code_pkg.size
                 self.pcr_size_hint = 2
                 self.fixed_size = True
                 raw_post_byte |= self.code_pkg.post_byte_choices[0]
                 self.code_pkg.post_byte = NumericValue(raw_post_byte)
-            elif force_16_bit or (min_size > 127 and max_size > 127):
+            elif force_16_bit or offset != 0 or (min_size > 127 and max_size > 127):
                 self.code_pkg.size += 2
                 self.code_pkg.max_size = self.code_pkg.size
                 self.pcr_size_hint = 4
@@ -232,14 +238,14 @@ class Statement(object):
                 raw_post_byte |= self.code_pkg.post_byte_choices[1]
                 self.code_pkg.post_byte = NumericValue(raw_post_byte)
         else:
-            if min_size <= 128 and max_size <= 128:
+            if min_size <= 128 and max_size <= 128 and not force_16_bit and offset <= 127 and -128 <= offset - max_size:
                 self.code_pkg.size += 1
                 self.code_pkg.max_size = self.code_pkg.size
                 self.pcr_size_hint = 2
                 self.fixed_size = True
                 raw_post_byte |= self.code_pkg.post_byte_choices[0]
                 self.code_pkg.post_byte = NumericValue(raw_post_byte)
-            elif force_16_bit or (min_size > 128 and max_size > 128):
+            elif force_16_bit or offset != 0 or (min_size > 128 and max_size > 128):
                 self.code_pkg.size += 2
                 self.code_pkg.max_size = self.code_pkg.size
                 self.pcr_size_hint = 4
